@@ -557,12 +557,21 @@ THEOREMS = [
     "BluetoeModel.AttWriteQueue.released_after",
     "BluetoeModel.AttWriteQueue.other_client_queue_full",
     "BluetoeModel.AttWriteQueue.prepare_iff_write_permitted",
+    "BluetoeModel.AttWriteQueue.representation_invariant",
+    "BluetoeModel.AttWriteQueue.step_keeps_invariant",
+    "BluetoeModel.AttWriteQueue.never_oob",
+    "BluetoeModel.AttWriteQueue.queue_representation",
+    "BluetoeModel.AttWriteQueue.released_after_wf",
+    "BluetoeModel.AttWriteQueue.attr_clause_exact",
+    "BluetoeModel.Cccd.cccd_position_in_array",
+    "BluetoeModel.Cccd.access_in_bounds",
 ]
 
 PROPS = {
     "C07": dict(
         theorems=THEOREMS,
         witnesses=["BluetoeModel.AttWriteQueue.unfixed_probe_witness"],
+        imports=["BluetoeModel.AttWriteQueue.Props", "BluetoeModel.AttWriteQueue.PropsOob", "BluetoeModel.Cccd.PropsOob"],
         run=run_c07,
         level="proof",
         technique="Lean 4 invariant + history proof over a model of write_queue.hpp and the Prepare/Execute Write handlers "
@@ -572,11 +581,18 @@ PROPS = {
                    "write_queue.hpp decodes to exactly the prepared writes accepted for its owner since the last release, in order; "
                    "execute_applies_in_order: Execute Write applies that list front to back; prepare_no_effect, cancel_discards, "
                    "released_after, other_client_queue_full and the full strength prepare_iff_write_permitted hold for every state. "
+                   "Representation invariant (never_oob, queue_representation, representation_invariant): for every well-formed "
+                   "table (decidable declWF: bound values of the declared size, CCCD positions < number of configurations, max MTU "
+                   ">= 23, queue size a uint16_t; evaluated by the model driver on every table of the real templates) and every "
+                   "history of all connections buffer_end_ <= S, the queue bytes decode as length-prefixed elements ending exactly "
+                   "at buffer_end_, each with handle + offset and an existing attribute, and none of the model's explicit "
+                   "out-of-bounds results (queue walk, attribute_at, value access, configuration array) is ever produced. "
                    "The model (with fix attwq-01) is tied to the code by differential runs on six real server types and an "
                    "independent Python oracle; small scopes are enumerated exhaustively in the thorough tier.",
         level_note="Trusted: Lean kernel + propext/Quot.sound/Classical.choice; model = code only as far as the differential check "
-                   "samples it; bound values and CCCDs only (no user handlers), servers without handle gaps; no theorem that the "
-                   "model's out-of-bounds results of value / configuration accesses are unreachable (ASan side: no hit).",
+                   "samples it; bound values and CCCDs only (no user handlers), servers without handle gaps; the "
+                   "implementation side of never_oob is ASan/UBSan + asserts in the harness (no hit); value sizes of the python "
+                   "tables are tied to the real types by the memory dumps only.",
         design_ref="§5 C07",
         assumptions=["servers without fixed handles (handle = attribute index + 1)",
                      "bound characteristic values and CCCDs (user read/write handlers are not modelled)",
